@@ -31,3 +31,4 @@ def run(prog, rep):
     from ..rules import r_key as _rkx
     _rkx.run_handles_only(prog, rep)
     r_pair.run_pos_pass(prog, rep)
+    _ru.run_scale_positions(prog, rep)
